@@ -332,10 +332,13 @@ pub fn run_forge<K: SimKey>(case: &Case, fseed: u64, budget: u32) -> Outcome {
         let segd = decode::decode_segment(&b);
         let end = segd.records.last().map_or(0, |r| r.end);
         b.truncate(end);
-        let input = payload.len();
         b.extend_from_slice(&decode::encode_record(v, &payload));
         set_file(&mut img, &seg, b);
-        if let Err(f) = judge::<K>(case, &img, &Expect::Total, &format!("forged record v{v} with a valid checksum: {what}"), Some(input + real.bytes("db/index").map_or(0, |x| x.len()) + 4096), &mut out) {
+        // the open decodes the snapshot and every record of every segment (and re-encodes the state when
+        // it checkpoints after the replay): the allocation bound is stated against all of that input,
+        // not against the forged record alone (false alarm with VERIF_SEED=5: a genuine 66 KB key in v1)
+        let input: usize = img.files.keys().filter(|p| *p == "db/index" || p.ends_with("_index.wal")).map(|p| img.bytes(p).map_or(0, |x| x.len())).sum::<usize>() + 4096;
+        if let Err(f) = judge::<K>(case, &img, &Expect::Total, &format!("forged record v{v} with a valid checksum: {what}"), Some(input), &mut out) {
             fail_with(f, &mut out);
             return out;
         }
